@@ -25,7 +25,10 @@ Oracle after every `on_batch` attempt, from the filesystem's op log and state:
      greater name — except the known finding: same period and same millisecond counter leaves the
      order to the random id (`C11:name-order:same-period-same-millis`);
  (f) no open / append / len / sync / delete of a path that is not a member of the set, in its directory;
- (g) no panic.
+ (g) no panic;
+ (h) after every successful batch the file that received its writes is still a member of the
+     directory (the set's current file) and the deletions of that same batch did not include it
+     (the fake filesystem keeps an unlinked file writable through its open handle, as POSIX does).
 */
 
 #[path = "../shared/fakefs.rs"]
@@ -162,6 +165,16 @@ fn gen_case(seed: u64, idx: u64) -> Case {
         }
     }
 
+    // full sets of future-dated members: whatever the set creates now sorts BELOW them
+    if g.chance(1, 6) {
+        for _ in 0..1 + g.usize(3) {
+            let t = (start as u128 + (1 + g.below(50)) as u128 * roll.period_nanos() as u128).min(MAX_NANOS as u128) as u64;
+            let name = gen_name(&mut g, &pfx, &ex, roll, t);
+            if !pre.iter().any(|(n, _, _)| *n == name) {
+                pre.push((name, g.usize(40), "member:future-dated"));
+            }
+        }
+    }
     let clock_step_ns = match g.below(12) {
         0 | 1 | 2 => 0,
         3 => 137_000,
@@ -275,6 +288,9 @@ struct Stats {
     collisions: u64,
     foreign_present: u64,
     clock_reads: u64,
+    current_file_checks: u64,
+    created_below_an_existing_member: u64,
+    created_below_an_existing_member_in_a_full_set: u64,
     max_reads_per_attempt: u64,
     attempts_with_stepping_clock: u64,
     creating_attempts_right_before_period_boundary: u64,
@@ -428,6 +444,10 @@ fn run_case(c: &Case, stats: &mut Stats) -> Vec<(String, String)> {
                     let mut written: BTreeSet<String> = BTreeSet::new();
                     let mut listing_or_delete_failed = false;
                     let mut undeletable: BTreeSet<String> = BTreeSet::new();
+                    // op index of the last successful open / delete of every name during this attempt
+                    let mut last_open: std::collections::BTreeMap<String, usize> = Default::default();
+                    let mut last_remove: std::collections::BTreeMap<String, usize> = Default::default();
+                    let members_before = members.len();
                     for op in &log {
                         match op.kind {
                             OpKind::Mkdir | OpKind::ReadDir => {
@@ -465,6 +485,13 @@ fn run_case(c: &Case, stats: &mut Stats) -> Vec<(String, String)> {
                                         }
                                         if op.ok() {
                                             stats.files_created += 1;
+                                            last_open.insert(name.clone(), op.idx);
+                                            if members.iter().next_back().map(|m| m.as_str() > name.as_str()).unwrap_or(false) {
+                                                stats.created_below_an_existing_member += 1;
+                                                if members_before >= cfg.max_files {
+                                                    stats.created_below_an_existing_member_in_a_full_set += 1;
+                                                }
+                                            }
                                             // (e)
                                             if let Some(sn) = snapped {
                                                 // a boundary lies within two clock steps after the first reading
@@ -509,6 +536,7 @@ fn run_case(c: &Case, stats: &mut Stats) -> Vec<(String, String)> {
                                     OpKind::Remove => {
                                         if op.ok() {
                                             stats.deletions += 1;
+                                            last_remove.insert(name.clone(), op.idx);
                                             // a member whose deletion just failed stays behind; the next one is then the oldest deletable
                                             let smallest = members.iter().find(|m| !undeletable.contains(*m)).cloned();
                                             if smallest.as_deref() != Some(name.as_str()) {
@@ -527,6 +555,9 @@ fn run_case(c: &Case, stats: &mut Stats) -> Vec<(String, String)> {
                                     }
                                     OpKind::Write => {
                                         written.insert(name.clone());
+                                    }
+                                    OpKind::OpenExisting if op.ok() => {
+                                        last_open.insert(name.clone(), op.idx);
                                     }
                                     _ => {}
                                 }
@@ -559,6 +590,20 @@ fn run_case(c: &Case, stats: &mut Stats) -> Vec<(String, String)> {
                                 v.push(("C11:name:written-file-has-other-period".into(), format!("{}: wrote to {:?}; periods of this batch's readings: {:?}", when, w, periods)));
                             }
                             let created_now = log.iter().any(|o| o.kind == OpKind::OpenNew && o.ok());
+                            // (h) the file that received this batch is the set's current file: it is still a
+                            // member of the directory and this batch's own retention did not delete it
+                            stats.current_file_checks += 1;
+                            let deleted_after_open = match (last_remove.get(&w), last_open.get(&w)) {
+                                (Some(r), Some(o)) => r > o,
+                                (Some(_), None) => true,
+                                _ => false,
+                            };
+                            if deleted_after_open || !members.contains(&w) {
+                                v.push((
+                                    format!("C11:current-file:{}", if deleted_after_open { "deleted-by-the-retention-of-its-own-batch" } else { "not-in-the-directory-after-the-batch" }),
+                                    format!("{}: the batch was written to {:?} and acknowledged, but that file is not in the directory afterwards (members now: {:?}, max_files {})", when, w, members, cfg.max_files),
+                                ));
+                            }
                             // (c)
                             if let (Some(cur), Some(sz)) = (&current, size_before) {
                                 stats.roll_decisions_checked += 1;
@@ -677,6 +722,9 @@ fn evaluate(r: &mut Report, seed: u64, idx: u64) {
     r.observe("file-name-collisions", st.collisions);
     r.observe("non-member-files-present-in-directory", st.foreign_present);
     r.observe("clock-readings-taken-by-the-worker", st.clock_reads);
+    r.observe("current-file-still-in-directory-checks", st.current_file_checks);
+    r.observe("files-created-with-a-name-below-an-existing-member", st.created_below_an_existing_member);
+    r.observe("files-created-with-a-name-below-an-existing-member-in-a-full-set", st.created_below_an_existing_member_in_a_full_set);
     r.observe("on_batch-attempts-with-a-clock-that-advances-on-every-reading", st.attempts_with_stepping_clock);
     r.observe("file-creating-attempts-within-two-clock-steps-before-a-period-boundary", st.creating_attempts_right_before_period_boundary);
     r.observe("file-creating-attempts-within-two-clock-steps-before-a-millisecond-boundary", st.creating_attempts_right_before_milli_boundary);
